@@ -97,6 +97,11 @@ func (s *kvState) apply(index uint64, cmd []byte) sm.Result {
 	v.Val = wid
 	v.Ver++
 	s.kv[key] = v
+	if wid%4 == 0 {
+		// a state machine may well answer a command with the empty result (a
+		// previous value of zero, "nothing to report")
+		return sm.Result{}
+	}
 	d := make([]byte, 16)
 	binary.LittleEndian.PutUint64(d, v.Ver)
 	binary.LittleEndian.PutUint64(d[8:], wid)
